@@ -221,7 +221,7 @@ func getFieldValueByNameFromStruct(identName string, structValue reflect.Value) 
 
 	if svk == reflect.Map {
 		if e, found := findMapKey(structValue, identName); found {
-			return convertToDecimalIfNumber(structValue.MapIndex(e).Interface()), true
+			return convertNumberKindsToDecimal(structValue.MapIndex(e).Interface()), true
 		}
 		return nil, false
 	}
